@@ -249,7 +249,8 @@ func NewUpstream(addr string, opt Opt) (_ Upstream, err error) {
 			quicConfig := newDefaultClientQuicConfig()
 			quicConfig.MaxIdleTimeout = idleConnTimeout
 
-			addonCloser = quicTransport
+			// Note: quic.Transport does not close a socket it did not create.
+			addonCloser = closers{quicTransport, conn}
 			t = &http3.RoundTripper{
 				TLSClientConfig: opt.TLSConfig,
 				QuicConfig:      quicConfig,
@@ -358,6 +359,8 @@ func NewUpstream(addr string, opt Opt) (_ Upstream, err error) {
 		return transport.NewQuicTransport(transport.QuicTransportOpts{
 			DialContext: dialQuicConn,
 			Logger:      logger,
+			// Note: quic.Transport does not close a socket it did not create.
+			Closer: closers{t, uc},
 		}), nil
 	default:
 		return nil, fmt.Errorf("unsupported protocol [%s]", addrURL.Scheme)
@@ -384,6 +387,16 @@ func (u *udpWithFallback) ExchangeContext(ctx context.Context, q []byte) (*dnsms
 func (u *udpWithFallback) Close() error {
 	u.u.Close()
 	u.t.Close()
+	return nil
+}
+
+// closers closes all of its members in order. It always returns a nil error.
+type closers []io.Closer
+
+func (cs closers) Close() error {
+	for _, c := range cs {
+		c.Close()
+	}
 	return nil
 }
 
